@@ -96,6 +96,18 @@ templ seq(ops []Op) {
 					></button>
 				case "hx":
 					<button hx-on::click={ scr(o.I, o.A) }></button>
+				case "onst":
+					<style onload={ scr(o.I, o.A) }>/* s */</style>
+				case "onscr":
+					<script onload={ scr(o.I, o.A) } src="x.js"></script>
+				case "onimg":
+					<img onload={ scr(o.I, o.A) }/>
+				case "oninp":
+					<input onchange={ scr(o.I, o.A) }/>
+				case "cimg":
+					<img class={ cls(o.I) }/>
+				case "cinp":
+					<input class={ cls(o.I) }/>
 				case "cd":
 					<span class={ cls(o.I) }></span>
 				case "cc":
@@ -146,6 +158,8 @@ templ seq(ops []Op) {
 					}
 				case "comp":
 					@comp(o.Sub)
+				case "nsc", "wv", "wc":
+					@scope(o.K, o.Sub)
 				default:
 					<b data-badkind={ o.K }></b>
 			}
@@ -250,13 +264,47 @@ func dyn(es []Ent) templ.CSSClasses {
 	return out
 }
 
+// Once handles made in every way a program can make one; their identity is
+// the pointer. 0,1: templ.NewOnceHandle(); 2,3: &templ.OnceHandle{}; 4,5:
+// address of a variable; 6,7: address of a struct field.
 var (
-	onceHandles = []*templ.OnceHandle{templ.NewOnceHandle(), templ.NewOnceHandle()}
-	ohc         = templ.NewOnceHandle(templ.WithComponent(fixed()))
+	hVarA, hVarB templ.OnceHandle
+	hStruct      struct {
+		Name string
+		A, B templ.OnceHandle
+	}
+	onceHandles = []*templ.OnceHandle{
+		templ.NewOnceHandle(), templ.NewOnceHandle(),
+		&templ.OnceHandle{}, &templ.OnceHandle{},
+		&hVarA, &hVarB,
+		&hStruct.A, &hStruct.B,
+	}
+	ohc = templ.NewOnceHandle(templ.WithComponent(fixed()))
 )
 
-func oh(i int) *templ.OnceHandle { return onceHandles[i%2] }
-func hname(i int) string         { return fmt.Sprintf("h%d", i%2) }
+func oh(i int) *templ.OnceHandle { return onceHandles[i%8] }
+func hname(i int) string         { return fmt.Sprintf("h%d", i%8) }
+
+type scopeKey struct{}
+
+// scope renders a sub-history with a context DERIVED from the current one
+// inside the component tree: templ.WithNonce, context.WithValue or
+// context.WithCancel. The derived context is the same rendering context.
+func scope(kind string, ops []Op) templ.Component {
+	return templ.ComponentFunc(func(ctx context.Context, w io.Writer) error {
+		switch kind {
+		case "nsc":
+			ctx = templ.WithNonce(ctx, "sc0pe")
+		case "wv":
+			ctx = context.WithValue(ctx, scopeKey{}, 1)
+		case "wc":
+			c, cancel := context.WithCancel(ctx)
+			defer cancel()
+			ctx = c
+		}
+		return seq(ops).Render(ctx, w)
+	})
+}
 
 type Ctx struct {
 	Nonce  string ` + "`json:\"nonce\"`" + `
